@@ -77,34 +77,42 @@ func (p mp) GetMapping() seq.Mapping        { return p.m }
 func (p mp) GetRawMapping() *seq.RawMapping { return seq.NewRawMapping(p.m) }
 
 type c11Config struct {
-	Mapping   string `json:"mapping"` // keyword text path exists multi object nil
+	Mapping   string `json:"mapping"` // keyword text path exists multi object object-multi nil
 	Size      int    `json:"size"`    // per-type size limit (0 = default)
 	MaxToken  int    `json:"max_token"`
 	CaseSens  bool   `json:"case_sensitive"`
 	Partial   bool   `json:"partial"`
 }
 
+// mapping returns the mapping, the JSON path of the field, and the (field name, type) pairs to query:
+// name@type. The mapping is written as the YAML text an operator would write and read by the real
+// seq.ReadMapping (multi-type fields at the top level and inside an object included).
 func (c c11Config) mapping() (seq.Mapping, string, []string) {
-	// returns mapping, the JSON path of the field, and the (field name, type) pairs to query: name@type
-	switch c.Mapping {
-	case "keyword":
-		return seq.Mapping{"f": seq.NewSingleType(seq.TokenizerTypeKeyword, "", c.Size)}, "f", []string{"f@keyword"}
-	case "text":
-		return seq.Mapping{"f": seq.NewSingleType(seq.TokenizerTypeText, "", c.Size)}, "f", []string{"f@text"}
-	case "path":
-		return seq.Mapping{"f": seq.NewSingleType(seq.TokenizerTypePath, "", c.Size)}, "f", []string{"f@path"}
-	case "exists":
-		return seq.Mapping{"f": seq.NewSingleType(seq.TokenizerTypeExists, "", c.Size)}, "f", []string{"f@exists"}
-	case "multi":
-		return seq.Mapping{
-			"f": {Main: seq.MappingType{Title: "f", TokenizerType: seq.TokenizerTypeText, MaxSize: c.Size},
-				All: []seq.MappingType{{Title: "f", TokenizerType: seq.TokenizerTypeText, MaxSize: c.Size}, {Title: "f.kw", TokenizerType: seq.TokenizerTypeKeyword, MaxSize: c.Size}}},
-			"f.kw": seq.NewSingleType(seq.TokenizerTypeKeyword, "f.kw", c.Size),
-		}, "f", []string{"f@text", "f.kw@keyword"}
-	case "object":
-		return seq.Mapping{"o": seq.NewSingleType(seq.TokenizerTypeObject, "", 0), "o.f": seq.NewSingleType(seq.TokenizerTypeKeyword, "", c.Size)}, "o.f", []string{"o.f@keyword"}
+	typed := func(name, typ string) string { // single type with a size limit: the `types:` syntax carries sizes
+		return fmt.Sprintf("  - name: %q\n    types:\n      - type: %q\n        size: %d\n", name, typ, c.Size)
 	}
-	return nil, "f", []string{"f@keyword"}
+	var yaml, jsonPath string
+	var fields []string
+	switch c.Mapping {
+	case "keyword", "text", "path", "exists":
+		yaml, jsonPath, fields = "mapping-list:\n"+typed("f", c.Mapping), "f", []string{"f@" + c.Mapping}
+	case "multi":
+		yaml = fmt.Sprintf("mapping-list:\n  - name: \"f\"\n    types:\n      - type: \"text\"\n        size: %d\n      - title: \"kw\"\n        type: \"keyword\"\n        size: %d\n", c.Size, c.Size)
+		jsonPath, fields = "f", []string{"f@text", "f.kw@keyword"}
+	case "object":
+		yaml = fmt.Sprintf("mapping-list:\n  - name: \"o\"\n    type: \"object\"\n    mapping-list:\n      - name: \"f\"\n        types:\n          - type: \"keyword\"\n            size: %d\n", c.Size)
+		jsonPath, fields = "o.f", []string{"o.f@keyword"}
+	case "object-multi":
+		yaml = fmt.Sprintf("mapping-list:\n  - name: \"o\"\n    type: \"object\"\n    mapping-list:\n      - name: \"f\"\n        types:\n          - type: \"text\"\n            size: %d\n          - title: \"kw\"\n            type: \"keyword\"\n            size: %d\n", c.Size, c.Size)
+		jsonPath, fields = "o.f", []string{"o.f@text", "o.f.kw@keyword"}
+	default:
+		return nil, "f", []string{"f@keyword"}
+	}
+	m, err := seq.ReadMapping([]byte(yaml))
+	if err != nil {
+		panic(fmt.Sprintf("mapping %s: %v\n%s", c.Mapping, err, yaml))
+	}
+	return m, jsonPath, fields
 }
 
 var c11Alphabet = []string{"a", "A", "1", "_", "*", "-", "/", " ", `"`, `\`, "é", "İ", "K", "²", "\xff"}
@@ -474,7 +482,7 @@ func TestVerifC11(t *testing.T) {
 	}
 	rec("", 0)
 	var cfgs []c11Config
-	for _, mpg := range []string{"keyword", "text", "path", "exists", "multi", "object", "nil"} {
+	for _, mpg := range []string{"keyword", "text", "path", "exists", "multi", "object", "object-multi", "nil"} {
 		for _, size := range []int{0, 3} {
 			for _, mt := range []int{3, 72} {
 				for _, cs := range []bool{false, true} {
@@ -528,7 +536,7 @@ func TestVerifC11(t *testing.T) {
 	r.Sample(c11Case{Config: cfgs[0], Value: "A /é", Query: `f:"a /é"`})
 	ev := r.Get("evaluations")
 	r.Finish(t, "model_checking",
-		fmt.Sprintf("all values of length <=%d over the 15-rune alphabet {a A 1 _ * - / space \" \\ é İ(lower-case has another width) K(Kelvin) ²(number, not digit) \\xff(invalid)} x mapping {keyword,text,path,exists,keyword+text multi-type,object->keyword,nil} x per-type size limit {default,3} x MaxTokenSize {3,72} x case-sensitive x partial indexing; each value indexed by the real Ingestor.ProcessDocuments (metas decoded); derived queries: whole value (keyword), every maximal word within the token limit (text), every leading path (path), _exists_ (all), each in every quoting style (double, single, raw, bare when lexable), parsed by ParseSeqQL and evaluated on the emitted tokens. Over-limit values: skipped => only existence is required; partial => the cut prefix is the subject. distinct_nontrivial = distinct (config, value, query) found", maxLen),
+		fmt.Sprintf("all values of length <=%d over the 15-rune alphabet {a A 1 _ * - / space \" \\ é İ(lower-case has another width) K(Kelvin) ²(number, not digit) \\xff(invalid)} x mapping {keyword,text,path,exists,text+keyword multi-type,object->keyword,object->text+keyword multi-type,nil}, written as YAML and read by the real seq.ReadMapping, x per-type size limit {default,3} x MaxTokenSize {3,72} x case-sensitive x partial indexing; each value indexed by the real Ingestor.ProcessDocuments (metas decoded); derived queries: whole value (keyword), every maximal word within the token limit (text), every leading path (path), _exists_ (all), each in every quoting style (double, single, raw, bare when lexable), parsed by ParseSeqQL and evaluated on the emitted tokens. Over-limit values: skipped => only existence is required; partial => the cut prefix is the subject. distinct_nontrivial = distinct (config, value, query) found", maxLen),
 		map[string]any{
 			"states":                        int64(len(values)) * r.Get("configs"),
 			"transitions":                   ev,
